@@ -6,11 +6,59 @@
 #[cfg(kani)]
 pub mod util;
 
+#[cfg(all(kani, feature = "c01"))]
+pub mod c01;
+
 #[cfg(all(kani, feature = "c02"))]
 pub mod c02;
 
+#[cfg(all(kani, feature = "c03"))]
+pub mod c03;
+
+#[cfg(all(kani, feature = "c05"))]
+pub mod c05;
+
+#[cfg(all(kani, feature = "c06"))]
+pub mod c06;
+
+#[cfg(all(kani, feature = "c07"))]
+pub mod c07;
+
+#[cfg(all(kani, feature = "c08"))]
+pub mod c08;
+
+#[cfg(all(kani, feature = "c09"))]
+pub mod c09;
+
+#[cfg(all(kani, feature = "c10"))]
+pub mod c10;
+
+#[cfg(all(kani, feature = "c11"))]
+pub mod c11;
+
+#[cfg(all(kani, feature = "c12"))]
+pub mod c12;
+
+#[cfg(all(kani, feature = "c13"))]
+pub mod c13;
+
+#[cfg(all(kani, feature = "c14"))]
+pub mod c14;
+
+#[cfg(all(kani, feature = "c15"))]
+pub mod c15;
+
 #[cfg(all(kani, feature = "c16"))]
 pub mod c16;
+
+#[cfg(all(kani, feature = "c17"))]
+pub mod c17;
+
+#[cfg(all(kani, feature = "c19"))]
+pub mod c19;
+
+#[cfg(all(kani, feature = "c20"))]
+pub mod c20;
 
 #[cfg(all(kani, feature = "playback"))]
 mod playback_gen;
